@@ -66,6 +66,31 @@ type rdbCfg struct {
 	PipeSize int    `json:"pipesize,omitempty"` // config.RdbPipeSize for this execution (0 = shipped value)
 	Filter   string `json:"filter,omitempty"`   // "" (db 5 + prefix flt: black-listed) | prefix-black | prefix-white | slot-white | db-black
 	FilterDB int    `json:"filterdb,omitempty"` // the black-listed database of Filter db-black
+	TargetVer string `json:"targetver,omitempty"` // Redis.Version of the target; "" = 7.2.0 without version gating in the double (legacy scenarios)
+	HashTag   bool   `json:"hashtag,omitempty"`   // ReplaceHashTag: the first "{" and the first "}" of a key name are removed on the target
+}
+
+func (c rdbCfg) targetVer() string {
+	if c.TargetVer == "" {
+		return "7.2.0"
+	}
+	return c.TargetVer
+}
+
+// rdbVerGE compares "major.minor.patch" strings numerically on major.minor.
+func rdbVerGE(v string, major, minor int) bool {
+	var a, b int
+	fmt.Sscanf(v, "%d.%d", &a, &b)
+	return a > major || (a == major && b >= minor)
+}
+
+// targetKey is the name a snapshot key has on the target.
+func (c rdbCfg) targetKey(key string) string {
+	if !c.HashTag {
+		return key
+	}
+	key = strings.Replace(key, "{", "", 1)
+	return strings.Replace(key, "}", "", 1)
 }
 
 func (c rdbCfg) policy() string {
@@ -102,8 +127,9 @@ func (c rdbCfg) mapDB(db int) int {
 }
 
 func (c rdbCfg) outputConfig() RedisOutputConfig {
-	rc := config.RedisConfig{Addresses: []string{rdbTarget}, Type: config.RedisTypeStandalone, Otype: config.RedisTypeStandalone, Version: "7.2.0"}
+	rc := config.RedisConfig{Addresses: []string{rdbTarget}, Type: config.RedisTypeStandalone, Otype: config.RedisTypeStandalone, Version: c.targetVer()}
 	oc := RedisOutputConfig{
+		ReplaceHashTag:             c.HashTag,
 		InputName:                  "src",
 		CheckpointName:             c.cpName(),
 		RunId:                      rdbRunID,
@@ -215,6 +241,7 @@ type rdbExpect struct {
 	Case     *ref.RDBCase
 	Filtered bool
 	TargetDB int
+	TargetKey string       // name on the target (differs from Spec.Key with ReplaceHashTag)
 	Value    *redisd.Value // content (ExpireAt = source's absolute expiry, 0 = none)
 	Body     []byte        // serialized value bytes a RESTORE payload must carry
 	Past     bool
@@ -224,6 +251,7 @@ type rdbBuilt struct {
 	File   []byte
 	Expect []*rdbExpect
 	ByKey  map[string]*rdbExpect
+	ByTarget map[string]*rdbExpect // by name on the target
 	Allow  map[string]bool // "<db>/<key>" the target may hold besides the snapshot's keys (pre-populated by a check)
 	TypeAt []int           // file offsets of the value type bytes, in file order
 }
@@ -315,7 +343,7 @@ func rdbStreamVer(enc ref.RDBEnc) int {
 // execution; expiries are placed relative to it.
 func rdbBuild(scn rdbScenario, now int64) (*rdbBuilt, error) {
 	var keys []ref.RDBKey
-	b := &rdbBuilt{ByKey: map[string]*rdbExpect{}}
+	b := &rdbBuilt{ByKey: map[string]*rdbExpect{}, ByTarget: map[string]*rdbExpect{}}
 	for _, k := range scn.Keys {
 		c := rdbCase(k.Case)
 		if c == nil {
@@ -332,6 +360,8 @@ func rdbBuild(scn rdbScenario, now int64) (*rdbBuilt, error) {
 			at, sec = (now/1000+100)*1000, true
 		case "pastsec":
 			at, sec = (now/1000-5)*1000, true
+		case "now":
+			at = now // expires at the very millisecond the replay runs
 		case "":
 		default:
 			return nil, fmt.Errorf("unknown expiry mode %q", k.Exp)
@@ -342,7 +372,7 @@ func rdbBuild(scn rdbScenario, now int64) (*rdbBuilt, error) {
 		keys = append(keys, ref.RDBKey{DB: k.DB, Key: []byte(k.Key), Val: c.Val, Enc: k.Enc, ExpireAtMs: at, ExpireSec: sec, Idle: k.Idle, Freq: k.Freq})
 		val := rdbToValue(c.Val, rdbStreamVer(k.Enc))
 		val.ExpireAt = at
-		e := &rdbExpect{Spec: k, Case: c, TargetDB: scn.Cfg.mapDB(k.DB), Value: val, Past: at != 0 && at <= now,
+		e := &rdbExpect{Spec: k, Case: c, TargetDB: scn.Cfg.mapDB(k.DB), TargetKey: scn.Cfg.targetKey(k.Key), Value: val, Past: at != 0 && at <= now,
 			Filtered: scn.rdbFiltered(k.DB, k.Key)}
 		if scn.Cfg.Filter != "" && e.Filtered != k.Drop {
 			return nil, fmt.Errorf("key %q: scenario says drop=%v but the reference filter evaluation says %v", k.Key, k.Drop, e.Filtered)
@@ -352,6 +382,10 @@ func rdbBuild(scn rdbScenario, now int64) (*rdbBuilt, error) {
 			return nil, fmt.Errorf("key name %q used twice in one scenario", k.Key)
 		}
 		b.ByKey[k.Key] = e
+		if _, dup := b.ByTarget[e.TargetKey]; dup {
+			return nil, fmt.Errorf("target key name %q used twice in one scenario", e.TargetKey)
+		}
+		b.ByTarget[e.TargetKey] = e
 	}
 	g, err := ref.GenRDB(ref.RDBFileOpt{Version: scn.Version, Aux: scn.Aux, ZeroCRC: scn.ZeroCRC, KeyStr: ref.StrOpt{LZF: scn.KeyLZF}}, keys)
 	if err != nil {
@@ -373,6 +407,7 @@ type rdbHooks struct {
 	OnStart   func(cancel context.CancelFunc)                // receives the cancel function of the replay context
 	Picker    vsel.Picker                                    // decides rewritten selects with several ready cases (builds with the select transform)
 	MaxReq    int                                            // give up (Runaway) after this many target requests (0 = 300000)
+	Preempt   *preemptCtl                                    // preemption plan (builds with the yield transform): armed while Send runs, settle() replaces synctest.Wait()
 	NoPark    bool                                           // the target answers every request at once (it keeps up with the parser) instead of being stepped at quiescence
 }
 
@@ -415,6 +450,10 @@ func rdbRun(scn rdbScenario, built *rdbBuilt, ch *mc.Chooser, hooks *rdbHooks) *
 		vsel.SetPicker(hooks.Picker)
 		defer vsel.SetPicker(nil)
 	}
+	if scn.Cfg.TargetVer != "" {
+		srv.Version = scn.Cfg.TargetVer
+		srv.Extra = rdbVersionGate(scn.Cfg.TargetVer)
+	}
 	if hooks != nil && hooks.Prepare != nil {
 		hooks.Prepare(srv)
 	}
@@ -437,6 +476,12 @@ func rdbRun(scn rdbScenario, built *rdbBuilt, ch *mc.Chooser, hooks *rdbHooks) *
 	}
 	done := make(chan error, 1)
 	rd := newHReader(g, rdbRunID, rdbSnapOffset, int64(len(built.File)), false)
+	wait := synctest.Wait
+	if hooks != nil && hooks.Preempt != nil {
+		hooks.Preempt.armed = true
+		wait = hooks.Preempt.settle
+		defer func() { hooks.Preempt.armed = false }()
+	}
 	go func() { done <- ro.Send(ctx, rd) }()
 
 	idx := 0
@@ -445,7 +490,7 @@ func rdbRun(scn rdbScenario, built *rdbBuilt, ch *mc.Chooser, hooks *rdbHooks) *
 		maxReq = hooks.MaxReq
 	}
 	for {
-		synctest.Wait()
+		wait()
 		select {
 		case err := <-done:
 			out.Ended, out.Err = true, err
@@ -502,7 +547,7 @@ func rdbRun(scn rdbScenario, built *rdbBuilt, ch *mc.Chooser, hooks *rdbHooks) *
 		srv.Unpark()
 		srv.KillConns()
 		time.Sleep(time.Minute)
-		synctest.Wait()
+		wait()
 		select {
 		case err := <-done:
 			out.Err = err
@@ -513,6 +558,62 @@ func rdbRun(scn rdbScenario, built *rdbBuilt, ch *mc.Chooser, hooks *rdbHooks) *
 	srv.PlanRef().Park = false
 	srv.Unpark()
 	return out
+}
+
+// rdbVersionGate makes the double behave like a server of the given version where the tool's
+// own version gates matter: RESTORE knows IDLETIME/FREQ from 5.0 and only the value type codes
+// of its own RDB version (an unknown one is "Bad data format"), streams exist from 5.0, XSETID
+// takes ENTRIESADDED/MAXDELETEDID and XGROUP CREATE takes ENTRIESREAD from 7.0, FUNCTION
+// exists from 7.0. Everything else falls through to the double.
+func rdbVersionGate(ver string) func(s *redisd.Server, cs *redisd.ConnState, argv [][]byte) []byte {
+	knownType := func(t byte) bool {
+		switch {
+		case t <= 7 || (t >= 9 && t <= 14):
+			return true
+		case t == 15:
+			return rdbVerGE(ver, 5, 0)
+		case t >= 16 && t <= 19:
+			return rdbVerGE(ver, 7, 0)
+		case t == 20 || t == 21:
+			return rdbVerGE(ver, 7, 2)
+		}
+		return false
+	}
+	errReply := func(msg string) []byte { return []byte("-" + msg + "\r\n") }
+	return func(s *redisd.Server, cs *redisd.ConnState, argv [][]byte) []byte {
+		name := strings.ToLower(string(argv[0]))
+		switch name {
+		case "restore":
+			for _, a := range argv[4:] {
+				o := strings.ToUpper(string(a))
+				if (o == "IDLETIME" || o == "FREQ" || o == "ABSTTL") && !rdbVerGE(ver, 5, 0) {
+					return errReply("ERR syntax error")
+				}
+			}
+			if len(argv) > 3 && len(argv[3]) > 0 && !knownType(argv[3][0]) {
+				return errReply("ERR Bad data format")
+			}
+		case "xadd", "xsetid", "xgroup", "xclaim":
+			if !rdbVerGE(ver, 5, 0) {
+				return errReply("ERR unknown command '" + name + "'")
+			}
+			if name == "xsetid" && len(argv) > 3 && !rdbVerGE(ver, 7, 0) {
+				return errReply("ERR wrong number of arguments for 'xsetid' command")
+			}
+			if name == "xgroup" && !rdbVerGE(ver, 7, 0) {
+				for _, a := range argv[1:] {
+					if strings.ToUpper(string(a)) == "ENTRIESREAD" {
+						return errReply("ERR syntax error")
+					}
+				}
+			}
+		case "function":
+			if !rdbVerGE(ver, 7, 0) {
+				return errReply("ERR unknown command 'function'")
+			}
+		}
+		return nil
+	}
 }
 
 // rdbCanonConns orders the connections that have parked requests by their head
@@ -617,9 +718,19 @@ func rdbCanon(v *redisd.Value) []string {
 
 // rdbNormalise drops from got what the source dump did not carry: a v1 stream dump has
 // no entries-read counters (the loader of the target estimates them).
-func rdbNormalise(want, got *redisd.Value) {
+func rdbNormalise(want, got *redisd.Value, pre7 bool) {
 	if want.T != 'x' || got.T != 'x' || want.Stream == nil || got.Stream == nil {
 		return
+	}
+	if pre7 {
+		// a target before 7.0 has no entries-added / max-deleted-id / entries-read: XSETID key id and
+		// XGROUP CREATE key group id are all that exists there
+		for _, v := range []*redisd.Value{want, got} {
+			v.Stream.Added, v.Stream.MaxDelID = 0, redisd.StreamID{}
+			for _, g := range v.Stream.Groups {
+				g.EntriesRd = -1
+			}
+		}
 	}
 	unknown := map[string]bool{}
 	for _, g := range want.Stream.Groups {
@@ -815,7 +926,7 @@ func rdbTail(ss []string, n int) []string {
 
 func rdbPath(e *rdbExpect, scn rdbScenario, out *rdbOutcome) string {
 	for _, r := range out.Srv.Restores() {
-		if r.Key == e.Spec.Key {
+		if r.Key == e.TargetKey {
 			return "restore"
 		}
 	}
@@ -871,7 +982,7 @@ func rdbOracle(prefix string, scn rdbScenario, built *rdbBuilt, out *rdbOutcome)
 		if r.Body == nil && !r.FooterOK && busy[r.Key] {
 			continue
 		}
-		e := built.ByKey[r.Key]
+		e := built.ByTarget[r.Key]
 		sh := "unknown-key"
 		if e != nil {
 			sh = rdbContainer(e)
@@ -894,7 +1005,7 @@ func rdbOracle(prefix string, scn rdbScenario, built *rdbBuilt, out *rdbOutcome)
 	}
 	// keys that must be present now
 	for _, e := range built.Expect {
-		got := srv.Get(e.TargetDB, e.Spec.Key)
+		got := srv.Get(e.TargetDB, e.TargetKey)
 		sh := rdbContainer(e)
 		path := rdbPath(e, scn, out)
 		if e.Filtered {
@@ -908,14 +1019,14 @@ func rdbOracle(prefix string, scn rdbScenario, built *rdbBuilt, out *rdbOutcome)
 		}
 		if got == nil {
 			for db := 0; db < 16; db++ {
-				if db != e.TargetDB && srv.Get(db, e.Spec.Key) != nil {
+				if db != e.TargetDB && srv.Get(db, e.TargetKey) != nil {
 					return mc.Violation("a snapshot key was written into another database than the mapped one", prefix+":wrong-database",
 						detail(map[string]interface{}{"key": e.Spec.Key, "source_db": e.Spec.DB, "mapped_db": e.TargetDB, "found_in_db": db, "path": path}))
 				}
 			}
 			return mc.Violation("snapshot key missing on the target", prefix+":missing:"+sh, detail(map[string]interface{}{"key": e.Spec.Key, "db": e.TargetDB, "path": path}))
 		}
-		rdbNormalise(e.Value, got)
+		rdbNormalise(e.Value, got, !rdbVerGE(scn.Cfg.targetVer(), 7, 0))
 		a, b := rdbCanon(e.Value), rdbCanon(got)
 		if strings.Join(a, "\n") != strings.Join(b, "\n") {
 			class := rdbDiffClass(e, got)
@@ -940,7 +1051,7 @@ func rdbOracle(prefix string, scn rdbScenario, built *rdbBuilt, out *rdbOutcome)
 		if e.Filtered || !e.Past {
 			continue
 		}
-		if got := srv.Get(e.TargetDB, e.Spec.Key); got != nil {
+		if got := srv.Get(e.TargetDB, e.TargetKey); got != nil {
 			return mc.Violation("a key whose source expiry is in the past is still alive 2 ms after the replay", prefix+":expired-alive:"+rdbPath(e, scn, out),
 				detail(map[string]interface{}{"key": e.Spec.Key, "source_expire_at": e.Value.ExpireAt, "target_expire_at": got.ExpireAt, "found": rdbClipLines(rdbCanon(got)), "now": time.Now().UnixMilli()}))
 		}
@@ -949,7 +1060,7 @@ func rdbOracle(prefix string, scn rdbScenario, built *rdbBuilt, out *rdbOutcome)
 	want := map[string]bool{}
 	for _, e := range built.Expect {
 		if !e.Filtered && !e.Past {
-			want[fmt.Sprintf("%d/%s", e.TargetDB, e.Spec.Key)] = true
+			want[fmt.Sprintf("%d/%s", e.TargetDB, e.TargetKey)] = true
 		}
 	}
 	for db := 0; db < 16; db++ {
@@ -966,6 +1077,9 @@ func rdbOracle(prefix string, scn rdbScenario, built *rdbBuilt, out *rdbOutcome)
 	for _, r := range execLog {
 		if len(r.Argv) > 1 {
 			if _, ok := built.ByKey[string(r.Argv[1])]; ok {
+				touched = true
+			}
+			if _, ok := built.ByTarget[string(r.Argv[1])]; ok {
 				touched = true
 			}
 		}
